@@ -192,31 +192,13 @@ func scalarType(name string) ScalarType {
 	panic("unknown scalar type " + name)
 }
 
-func doExpr(req request) map[string]interface{} {
-	t := scalarType(req.Type)
-	n := len(req.Vars)
-	vars := make([]MagicScalar, n)
-	regs := []Scalar{}
-	for i, s := range req.Vars {
-		vars[i] = NewScalar(t, unhex(s)).(MagicScalar)
-		regs = append(regs, vars[i])
-	}
-	if req.Prior {
-		// an in-place update x <- x*o (o = 1 with a derivative of its own) as an optimiser would do
-		// it leaves derivatives in x; the value is unchanged
-		for i := range vars {
-			o := NewScalar(t, 1.0).(MagicScalar)
-			if err := o.SetVariable((i+1)%n, n, req.Order); err != nil {
-				return map[string]interface{}{"err": err.Error()}
-			}
-			if err := vars[i].SetVariable(i, n, req.Order); err != nil {
-				return map[string]interface{}{"err": err.Error()}
-			}
-			vars[i].Mul(vars[i], o)
-		}
-	}
-	if err := Variables(req.Order, vars...); err != nil {
-		return map[string]interface{}{"err": err.Error()}
+// evalProgram runs the register program on the given variables (registers 0..n-1, read only)
+func evalProgram(t ScalarType, prog []instr, vars []ConstScalar) (ConstScalar, map[string]interface{}) {
+	regs := []ConstScalar{}
+	wregs := []Scalar{}
+	for _, v := range vars {
+		regs = append(regs, v)
+		wregs = append(wregs, nil)
 	}
 	get := func(kind string, reg int, val string) ConstScalar {
 		switch kind {
@@ -234,11 +216,16 @@ func doExpr(req request) map[string]interface{} {
 		}
 		return v
 	}
-	for _, in := range req.Prog {
+	for _, in := range prog {
 		for in.Dst >= len(regs) {
-			regs = append(regs, NullScalar(t))
+			w := NullScalar(t)
+			regs = append(regs, w)
+			wregs = append(wregs, w)
 		}
-		r := regs[in.Dst]
+		r := wregs[in.Dst]
+		if r == nil {
+			return nil, map[string]interface{}{"err": "program writes a variable"}
+		}
 		var a, b ConstScalar
 		if in.KA != "" || in.A >= 0 {
 			a = get(in.KA, in.A, in.VA)
@@ -248,7 +235,7 @@ func doExpr(req request) map[string]interface{} {
 		}
 		if in.CC {
 			if !concrete(in.Op, r, a, b, NullScalar(t)) {
-				return map[string]interface{}{"err": "no concrete variant of " + in.Op}
+				return nil, map[string]interface{}{"err": "no concrete variant of " + in.Op}
 			}
 			continue
 		}
@@ -341,12 +328,45 @@ func doExpr(req request) map[string]interface{} {
 			}
 			r.Mtrace(m)
 		default:
-			return map[string]interface{}{"err": "unknown op " + in.Op}
+			return nil, map[string]interface{}{"err": "unknown op " + in.Op}
 		}
 	}
 	out := regs[len(regs)-1]
-	if len(req.Prog) > 0 {
-		out = regs[req.Prog[len(req.Prog)-1].Dst]
+	if len(prog) > 0 {
+		out = regs[prog[len(prog)-1].Dst]
+	}
+	return out, nil
+}
+
+func doExpr(req request) map[string]interface{} {
+	t := scalarType(req.Type)
+	n := len(req.Vars)
+	vars := make([]MagicScalar, n)
+	regs := []ConstScalar{}
+	for i, s := range req.Vars {
+		vars[i] = NewScalar(t, unhex(s)).(MagicScalar)
+		regs = append(regs, vars[i])
+	}
+	if req.Prior {
+		// an in-place update x <- x*o (o = 1 with a derivative of its own) as an optimiser would do
+		// it leaves derivatives in x; the value is unchanged
+		for i := range vars {
+			o := NewScalar(t, 1.0).(MagicScalar)
+			if err := o.SetVariable((i+1)%n, n, req.Order); err != nil {
+				return map[string]interface{}{"err": err.Error()}
+			}
+			if err := vars[i].SetVariable(i, n, req.Order); err != nil {
+				return map[string]interface{}{"err": err.Error()}
+			}
+			vars[i].Mul(vars[i], o)
+		}
+	}
+	if err := Variables(req.Order, vars...); err != nil {
+		return map[string]interface{}{"err": err.Error()}
+	}
+	out, errm := evalProgram(t, req.Prog, regs)
+	if errm != nil {
+		return errm
 	}
 	res := map[string]interface{}{"v": hex(out.GetFloat64()), "order": out.GetOrder(), "n": out.GetN()}
 	g := make([]float64, n)
@@ -363,7 +383,103 @@ func doExpr(req request) map[string]interface{} {
 		}
 	}
 	res["h"] = hexs(h)
+	res["helpers"] = helperCheck(t, req, out, g, h)
 	return res
+}
+
+// the accessors GetGradient/CopyGradient/GetHessian/CopyHessian and Matrix.Jacobian/Hessian must report
+// what GetDerivative/GetHessian of the result report
+func helperCheck(t ScalarType, req request, out ConstScalar, g, h []float64) string {
+	n := len(req.Vars)
+	if out.GetN() != n || out.GetOrder() < 1 {
+		return ""
+	}
+	same := func(a, b float64) bool { return a == b || (math.IsNaN(a) && math.IsNaN(b)) }
+	conv := func(v float64) float64 { return NewScalar(t, v).GetFloat64() }
+	gv := GetGradient(t, out)
+	cv := NullDenseVector(t, n)
+	if err := CopyGradient(cv, out); err != nil {
+		return "CopyGradient: " + err.Error()
+	}
+	for i := 0; i < n; i++ {
+		if !same(gv.At(i).GetFloat64(), conv(g[i])) || !same(cv.At(i).GetFloat64(), conv(g[i])) {
+			return fmt.Sprintf("gradient entry %d: GetDerivative %v, GetGradient %v, CopyGradient %v", i, g[i], gv.At(i).GetFloat64(), cv.At(i).GetFloat64())
+		}
+	}
+	x := NullDenseVector(t, n)
+	for i, s := range req.Vars {
+		x.At(i).SetFloat64(unhex(s))
+	}
+	xm, ok := x.(MagicVector)
+	if !ok {
+		return ""
+	}
+	var perr map[string]interface{}
+	if out.GetOrder() >= 2 {
+		hm := GetHessian(t, out)
+		cm := NullDenseMatrix(t, n, n)
+		if err := CopyHessian(cm, out); err != nil {
+			return "CopyHessian: " + err.Error()
+		}
+		for i := 0; i < n; i++ {
+			for j := 0; j < n; j++ {
+				if !same(hm.At(i, j).GetFloat64(), conv(h[i*n+j])) || !same(cm.At(i, j).GetFloat64(), conv(h[i*n+j])) {
+					return fmt.Sprintf("Hessian entry %d,%d: GetHessian(i,j) %v, GetHessian %v, CopyHessian %v", i, j, h[i*n+j], hm.At(i, j).GetFloat64(), cm.At(i, j).GetFloat64())
+				}
+			}
+		}
+		if !req.Prior {
+			H := NullDenseMatrix(t, n, n)
+			H.Hessian(func(v ConstVector) ConstScalar {
+				vars := make([]ConstScalar, n)
+				for i := range vars {
+					vars[i] = v.ConstAt(i)
+				}
+				r, e := evalProgram(t, req.Prog, vars)
+				if e != nil {
+					perr = e
+					return NullScalar(t)
+				}
+				return r
+			}, xm)
+			if perr != nil {
+				return fmt.Sprint(perr)
+			}
+			for i := 0; i < n; i++ {
+				for j := 0; j < n; j++ {
+					if !same(H.At(i, j).GetFloat64(), conv(h[i*n+j])) {
+						return fmt.Sprintf("Matrix.Hessian entry %d,%d is %v, the result's Hessian %v", i, j, H.At(i, j).GetFloat64(), h[i*n+j])
+					}
+				}
+			}
+		}
+	}
+	if !req.Prior {
+		J := NullDenseMatrix(t, 1, n)
+		J.Jacobian(func(v ConstVector) ConstVector {
+			vars := make([]ConstScalar, n)
+			for i := range vars {
+				vars[i] = v.ConstAt(i)
+			}
+			r, e := evalProgram(t, req.Prog, vars)
+			y := NullDenseVector(t, 1)
+			if e != nil {
+				perr = e
+				return y
+			}
+			y.At(0).Set(r)
+			return y
+		}, xm)
+		if perr != nil {
+			return fmt.Sprint(perr)
+		}
+		for j := 0; j < n; j++ {
+			if !same(J.At(0, j).GetFloat64(), conv(g[j])) {
+				return fmt.Sprintf("Matrix.Jacobian entry %d is %v, the result's derivative %v", j, J.At(0, j).GetFloat64(), g[j])
+			}
+		}
+	}
+	return ""
 }
 
 // the concrete (statically typed) variants of the scalar operations
